@@ -417,6 +417,21 @@ func (ex *Exec) harnessIntrinsic(f *ssa.Function) intrinsic {
 		return func(ex *Exec, st *State, args []Value, site ssa.CallInstruction) Value {
 			return c.Ite(args[0].(*Term), args[1].(*Term), args[2].(*Term))
 		}
+	case "vSliceOfLen":
+		return func(ex *Exec, st *State, args []Value, site ssa.CallInstruction) Value {
+			n := args[0].(*Term)
+			id := st.alloc(ArrayV{c.BV(8, 0)}, nil)
+			return SliceV{Obj: id, Off: ex.i64(0), Len: n, Cap: n}
+		}
+	case "vChanPush":
+		return func(ex *Exec, st *State, args []Value, site ssa.CallInstruction) Value {
+			ch := args[0].(IfaceV).V.(ChanV)
+			cd := *st.chanData(ch)
+			v := args[1].(IfaceV).V
+			cd.Buf = append(append([]Value(nil), cd.Buf...), v)
+			st.writeChan(ch, &cd)
+			return nil
+		}
 	case "vSymbolic":
 		return func(ex *Exec, st *State, args []Value, site ssa.CallInstruction) Value {
 			return c.True
